@@ -12,6 +12,10 @@ import (
 
 type mergeFail struct{}
 
+// symbolic indexes whose syntactic range spans more than this many elements
+// are concretised by forking instead of building an ite chain
+const symIdxChain = 96
+
 // merge builds ite(c, a, b) structurally.
 func (it *Interp) merge(c *Term, a, b Value) Value {
 	if c.IsTrue() {
@@ -180,7 +184,7 @@ func (it *Interp) navSym(c *ArrayV, t *Term, rest []PathElem) (res Value) {
 			}
 			return r, true
 		}
-		if hi-lo > 4096 {
+		if hi-lo > symIdxChain {
 			return nil, false
 		}
 		r = it.nav(c.dense[hi], rest)
@@ -230,7 +234,7 @@ func (it *Interp) navStore(v Value, path []PathElem, val Value, guard *Term) {
 			return
 		}
 		lo, hi := idxRange(pe.t, c.n)
-		if c.dense == nil || hi-lo > 4096 {
+		if c.dense == nil || hi-lo > symIdxChain {
 			k := int(it.ex.concretize(pe.t))
 			np := append([]PathElem{{i: k}}, path[1:]...)
 			it.navStore(v, np, val, guard)
@@ -284,6 +288,9 @@ func (it *Interp) load(fr *frame, p *PtrV) Value {
 func (it *Interp) store(fr *frame, p *PtrV, val Value) {
 	if p.isNil() {
 		it.rtPanic(fr, "nil", "invalid memory address or nil pointer dereference")
+	}
+	if p.obj.frozen {
+		it.unsupported("store through a slice-to-array-pointer conversion")
 	}
 	if p.obj.input && it.barrier {
 		it.ex.report("barrier", it.site(fr.cur), "store into the caller's input buffer")
@@ -481,6 +488,8 @@ func (it *Interp) sizeBound(fr *frame, n *Term, what string) int {
 	// fork: sizes above the limit are reported as an (unbounded) allocation event
 	big := it.tt.Ult(it.tt.Const(64, allocLimit), n)
 	if it.ex.branch(big, false) {
+		// prefer a witness with a really large size for native confirmation
+		it.ex.preferModel(it.tt.Ult(it.tt.Const(64, 1<<31), n))
 		it.ex.report("alloc", it.site(fr.cur), fmt.Sprintf("%s: allocation size controlled by input can exceed %d elements", what, allocLimit))
 		panic(abortRun{"huge allocation"})
 	}
